@@ -167,6 +167,11 @@ def classify(small, where, resp):
     if where == "returns":
         return "type:returns_kind"
     cls = "state" if (where.startswith("snapshot") or where.startswith("final")) else "value"
+    if any(k in kinds for k in ("closure", "map_keys", "map_values", "filter", "for_each")):
+        # one family of root causes (upstream issue 13782: closure bodies are typed as if they ran
+        # exactly once, their `return` values and side effects do not reach the call's type; map_keys
+        # keeps the input's known keys): keyed by the observable class only
+        return "type:%s:closure" % cls
     cul = [c for c in CULPRITS if c in kinds]
     others = [k for k in kinds if k not in CULPRITS and not k.startswith("op")]
     if "closure" in cul and len(cul) > 1:
